@@ -1,6 +1,7 @@
 (* driver.ml (C19) — line protocol for the sync oracle; no logic of its own (the probe list is recorded by wrapping
    the overlap function handed to the extracted search).
    input :  A head | localid0 localid1 .. | remoteid0 remoteid1 ..        (ids in hex, index = height)
+            S head fuel|- L | flipped heights | failing heights         (synthetic overlap predicate n <= L)
             D from fuel | from ERR | from OK num:body num:body ..  | ..     (num = hex or x (bad structure); body 0/1)
    output:  anc N | fail N | nofuel   followed by  " | probe probe .."
             done|peererr|badstruct|brokenseq|badbody|nofuel  followed by " | num num .." (blocks forwarded)  *)
@@ -34,6 +35,14 @@ let handle line =
     let probes = ref [] in
     let ov x = probes := hex_of_n x :: !probes; ov_of_chains local remote x in
     let r = find_common_ancestor ov head (ancestor_fuel head) in
+    show_outcome r ^ " | " ^ String.concat " " (List.rev !probes)
+  | [ ["S"; head; fuel; l]; flips; fails ] ->
+    let head = n_of_hex head in
+    let probes = ref [] in
+    let f = ov_synth (n_of_hex l) (List.map n_of_hex flips) (List.map n_of_hex fails) in
+    let ov x = probes := hex_of_n x :: !probes; f x in
+    let fuel = if fuel = "-" then ancestor_fuel head else nat_of_int (int_of_string fuel) in
+    let r = find_common_ancestor ov head fuel in
     show_outcome r ^ " | " ^ String.concat " " (List.rev !probes)
   | ["D"; from; fuel] :: answers ->
     let answers = List.map parse_answer (List.filter (fun a -> a <> []) answers) in
